@@ -167,7 +167,7 @@ def strategy(draw):
     maps = []
     for i in ids:
         k = draw(st.one_of(st.integers(0, 3), st.integers(0, 40)))
-        x = draw(st.integers(0, 200000)) / 10
+        x = draw(st.integers(0, 200000)) / 10 + draw(st.sampled_from([0, 0, 0, 0, 2 ** 24 + 0.5, 36_700_000.3, 152_600_007.9]))
         labels = []
         for _ in range(k):
             labels.append(round(x, 1))
